@@ -100,6 +100,20 @@ impl IndexEntry {
 impl FreezerFiles {
     /// Opens freezer files at path.
     pub fn open(file_path: PathBuf) -> Result<FreezerFiles, IoError> {
+        // verification-harness hook: a small data-file size (environment variable
+        // VERIF_FREEZER_MAX_FILE_SIZE, bytes) makes roll-overs reachable with a handful of blocks
+        #[cfg(feature = "verif-hooks")]
+        if let Some(size) = std::env::var("VERIF_FREEZER_MAX_FILE_SIZE")
+            .ok()
+            .and_then(|v| v.parse::<u64>().ok())
+            .filter(|v| *v > 0)
+        {
+            let mut files = FreezerFilesBuilder::new(file_path)
+                .max_file_size(size)
+                .build()?;
+            files.preopen()?;
+            return Ok(files);
+        }
         let mut files = FreezerFilesBuilder::new(file_path).build()?;
         files.preopen()?;
         Ok(files)
